@@ -8,7 +8,7 @@ use crate::wl::{self as gen_, asm};
 use crate::rng::{mix, tag, Rng};
 
 /// (family, weight, sections it uses with the main one first)
-pub const FAMILIES: &[(&str, u64)] = &[("aranges", 10), ("addr", 6), ("str", 4), ("pub", 6), ("line", 24), ("macros", 6), ("lists", 20), ("info", 40), ("cfi", 40), ("op", 30)];
+pub const FAMILIES: &[(&str, u64)] = &[("aranges", 10), ("addr", 6), ("str", 4), ("pub", 6), ("line", 24), ("macros", 6), ("lists", 20), ("info", 40), ("cfi", 40), ("op", 30), ("names", 16), ("index", 12)];
 
 pub fn families_for(prop: &str) -> Vec<(&'static str, u64)> {
     match prop {
@@ -28,6 +28,8 @@ pub fn main_section(family: &str) -> &'static str {
         "info" => "debug_info",
         "cfi" => "eh_frame",
         "op" => "expr",
+        "names" => "debug_names",
+        "index" => "debug_cu_index",
         _ => "",
     }
 }
@@ -413,7 +415,11 @@ fn gen_family(rng: &mut Rng, c: &mut Case, fam: &str, be: bool) {
                 c.set("abandon", rng.below(4) as i64);
             }
             let p = crate::wl::expr::EncParams { be, addr_size: asz, d64, version: version as u16 };
-            let prog = crate::wl::expr::random_program(rng, 14, &p);
+            let prog = if rng.bool() {
+                crate::wl::expr::valid_program(rng, 16, &p, true)
+            } else {
+                crate::wl::expr::random_program(rng, 14, &p)
+            };
             let mut bytes = crate::wl::expr::encode(&prog, &p);
             note.push_str("asm");
             if rng.chance(1, 12) {
@@ -424,10 +430,51 @@ fn gen_family(rng: &mut Rng, c: &mut Case, fam: &str, be: bool) {
             let nsubs = rng.usize(4);
             c.set("nsubs", nsubs as i64);
             for i in 0..nsubs {
-                let sp = crate::wl::expr::random_program(rng, 6, &p);
+                let sp = crate::wl::expr::valid_program(rng, 5, &p, false);
                 c.put(crate::drv::op::SUB_NAMES[i], crate::wl::expr::encode(&sp, &p));
             }
             c.put("expr", bytes);
+        }
+        "names" => {
+            let (mut nm, st, _) = asm::names(rng, be);
+            note.push_str("asm");
+            if rng.chance(1, 12) {
+                nm = gen_::noise(rng, 128);
+                note.push_str("+noise");
+            }
+            gen_::corrupt_some(rng, &mut nm, &[], &mut note);
+            c.put("debug_names", nm);
+            c.put("debug_str", st);
+        }
+        "index" => {
+            let asz = c.knob("addr_size", 8) as u8;
+            // a small package: units + abbrevs that the index rows point into
+            let (ab, info, types) = asm::info(rng, be, asz);
+            let (mut cu, ids) = asm::unit_index(rng, be, info.len() as u32);
+            let (mut tu, ids2) = asm::unit_index(rng, be, types.len().max(8) as u32);
+            note.push_str("asm");
+            for (k, id) in ids.iter().chain(ids2.iter()).take(4).enumerate() {
+                c.set(["id0", "id1", "id2", "id3"][k], *id as i64);
+            }
+            if rng.chance(1, 10) {
+                cu = gen_::noise(rng, 96);
+                note.push_str("+noise");
+            }
+            if rng.bool() {
+                gen_::corrupt_some(rng, &mut cu, &[], &mut note);
+            } else {
+                gen_::corrupt_some(rng, &mut tu, &[], &mut note);
+            }
+            c.put("debug_cu_index", cu);
+            c.put("debug_tu_index", tu);
+            c.put("debug_abbrev", ab);
+            c.put("debug_info", info);
+            c.put("debug_types", types);
+            let (s, o) = asm::strs(rng, be);
+            c.put("debug_str", s);
+            c.put("debug_str_offsets", o);
+            c.put("debug_line", asm::line_program(rng, be, asz));
+            c.put("parent_debug_addr", asm::addr(rng, be));
         }
         _ => panic!("gen_family: {}", fam),
     }
